@@ -44,6 +44,7 @@ impl EntryV3 {
 //@end
 //@extract struct file="versatiles_container/src/container/pmtiles/types/directory_v3.rs" name="Directory"
 //@end
+pub open spec fn came_from(e: EntryV3, e0: Seq<EntryV3>) -> bool { exists|j: int| 0 <= j < e0.len() && e == #[trigger] e0[j] }
 impl EntriesV3 {
 //@extract fn file="versatiles_container/src/container/pmtiles/types/entries_v3.rs" scope="impl EntriesV3" name="new"
 //@ret r
@@ -68,9 +69,15 @@ impl EntriesV3 {
 	// permuted (sorted by id), none is lost
 	#[verifier::external_body]
 	pub fn as_directory(&mut self, target_root_len: u64, compression: &TileCompression) -> (r: Result<Directory, VErr>)
-		ensures r is Ok ==> r.unwrap().root_bytes@.len() <= target_root_len, final(self).entries@.to_multiset() == old(self).entries@.to_multiset(), final(self).entries@.len() == old(self).entries@.len()
+		ensures r is Ok ==> r.unwrap().root_bytes@.len() <= target_root_len, final(self).entries@.len() == old(self).entries@.len(),
+			forall|i: int| 0 <= i < final(self).entries@.len() ==> #[trigger] came_from(final(self).entries@[i], old(self).entries@),
+			r is Ok ==> r.unwrap().root_bytes@ == dir_root(final(self).entries@, *compression) && r.unwrap().leaves_bytes@ == dir_leaves(final(self).entries@, *compression),
 	{ unimplemented!() }
 }
+// `dir_root(e, c)` / `dir_leaves(e, c)`: the root and leaf directory bytes as_directory produces for the sorted entries e (leaf split: unit
+// pmtiles_dir::build_roots_leaves; column layout: serialize_entries; decoder: pmtiles_dir_dec)
+pub uninterp spec fn dir_root(e: Seq<EntryV3>, c: TileCompression) -> Seq<u8>;
+pub uninterp spec fn dir_leaves(e: Seq<EntryV3>, c: TileCompression) -> Seq<u8>;
 // R6: the 127-byte header: only the fields this function sets are visible (serialize / layout: Kani unit pmtiles_codec, complete)
 pub struct HeaderV3 { pub root_dir: ByteRange, pub metadata: ByteRange, pub leaf_dirs: ByteRange, pub tile_data: ByteRange, pub addressed_tiles_count: u64,
 	pub tile_entries_count: u64, pub tile_contents_count: u64, pub clustered: bool, pub internal_compression: PMTilesCompression, pub rest: HeaderRest }
@@ -149,6 +156,35 @@ pub open spec fn entry_in(f: Seq<u8>, tds: int, e: EntryV3, c: TileCoord3, b: Se
 	e.tile_id == tile_id(c) && e.run_length == 1 && e.range.length == b.len() && tds + e.range.offset + e.range.length <= f.len()
 	&& f.subrange(tds + e.range.offset, tds + e.range.offset + e.range.length) == b
 }
+// entry e addresses, inside the tile section starting at tds, the bytes of the tile the source has at c, under c's Hilbert id
+pub open spec fn good(src: AbsSource, f: Seq<u8>, tds: int, e: EntryV3, c: TileCoord3) -> bool { src.tile_at(c) is Some && entry_in(f, tds, e, c, src.tile_at(c).unwrap()) }
+pub open spec fn all_good(src: AbsSource, f: Seq<u8>, tds: int, es: Seq<EntryV3>, cs: Seq<TileCoord3>, lim: int) -> bool {
+	cs.len() == es.len() && forall|i: int| 0 <= i < es.len() ==> #[trigger] good(src, f, tds, es[i], cs[i]) && tds + es[i].range.offset + es[i].range.length <= lim
+}
+pub open spec fn has_tile(src: AbsSource, f: Seq<u8>, tds: int, e: EntryV3) -> bool { exists|c: TileCoord3| #[trigger] good(src, f, tds, e, c) }
+pub open spec fn all_addressed(src: AbsSource, f: Seq<u8>, tds: int, ents: Seq<EntryV3>) -> bool {
+	forall|i: int| 0 <= i < ents.len() ==> #[trigger] has_tile(src, f, tds, ents[i])
+}
+// a write at or behind `lim` (or entirely in front of the tile section) keeps every entry good
+pub proof fn lemma_all_good_write(src: AbsSource, f: Seq<u8>, tds: int, es: Seq<EntryV3>, cs: Seq<TileCoord3>, lim: int, p: int, x: Seq<u8>)
+	requires all_good(src, f, tds, es, cs, lim), 0 <= p, 0 <= tds, lim <= f.len(), lim <= p || p + x.len() <= tds
+	ensures all_good(src, write_at(f, p, x), tds, es, cs, lim)
+{
+	assert forall|i: int| 0 <= i < es.len() implies #[trigger] good(src, write_at(f, p, x), tds, es[i], cs[i]) && tds + es[i].range.offset + es[i].range.length <= lim by {
+		assert(good(src, f, tds, es[i], cs[i]));
+		lemma_write_at_other(f, p, x, tds + es[i].range.offset, tds + es[i].range.offset + es[i].range.length);
+	}
+}
+pub proof fn lemma_all_addressed(src: AbsSource, f: Seq<u8>, tds: int, e0: Seq<EntryV3>, cs0: Seq<TileCoord3>, lim: int, e1: Seq<EntryV3>)
+	requires all_good(src, f, tds, e0, cs0, lim), forall|i: int| 0 <= i < e1.len() ==> #[trigger] came_from(e1[i], e0)
+	ensures all_addressed(src, f, tds, e1)
+{
+	assert forall|i: int| 0 <= i < e1.len() implies #[trigger] has_tile(src, f, tds, e1[i]) by {
+		assert(came_from(e1[i], e0));
+		let j = choose|j: int| 0 <= j < e0.len() && e1[i] == #[trigger] e0[j];
+		assert(good(src, f, tds, e0[j], cs0[j]));
+	}
+}
 pub struct PMTilesWriter { }
 impl PMTilesWriter {
 //@extract fn file="versatiles_container/src/container/pmtiles/writer.rs" scope="impl TilesWriterTrait for PMTilesWriter" name="write_to_writer"
@@ -163,7 +199,8 @@ impl PMTilesWriter {
 //@rewrite "while let Some((coord, blob)) = stream.next() {" => "loop { let vnext = stream.next(); if vnext.is_none() { break; } let (coord, blob) = vnext.unwrap();" R7
 //@ret r
 //@spec
-		requires forall|c: TileCoord3| (#[trigger] old(reader).tile_at(c)) is Some ==> c.valid(),
+		// a fresh writer (the callers create the file / blob for this call)
+		requires old(writer).bytes@.len() == 0, forall|c: TileCoord3| (#[trigger] old(reader).tile_at(c)) is Some ==> c.valid(),
 		ensures r is Ok ==> ({ let f = final(writer).bytes@;
 			exists|h: HeaderV3, root: Seq<u8>, meta: Seq<u8>, leaves: Seq<u8>| #![trigger header_wire(h), write_at(root, 0, meta), write_at(leaves, 0, meta)]
 				// header, root directory, metadata, tile data, leaf directories: where the PMTiles v3 layout wants them, none overwriting another
@@ -172,26 +209,35 @@ impl PMTilesWriter {
 				&& h.metadata.offset == 16384 && h.metadata.length == meta.len() && f.subrange(16384, 16384 + meta.len() as int) == meta
 				&& h.tile_data.offset == 16384 + meta.len()
 				&& h.leaf_dirs.offset == h.tile_data.offset + h.tile_data.length && h.leaf_dirs.length == leaves.len()
-				&& f.subrange(h.leaf_dirs.offset as int, h.leaf_dirs.offset as int + leaves.len() as int) == leaves }),
+				&& f.subrange(h.leaf_dirs.offset as int, h.leaf_dirs.offset as int + leaves.len() as int) == leaves
+				// the directories are those of a list of entries each of which addresses, in the tile section, the bytes of a tile of the source under its Hilbert id
+				&& (exists|ents: Seq<EntryV3>| #![trigger dir_root(ents, TileCompression::Gzip)] root == dir_root(ents, TileCompression::Gzip) && leaves == dir_leaves(ents, TileCompression::Gzip)
+					&& all_addressed(*old(reader), f, h.tile_data.offset as int, ents)) }),
 //@after "vsort_blocks(&mut blocks);"
 		proof { assert forall|i: int| 0 <= i < blocks@.len() implies (#[trigger] blocks@[i]).wf() by { } }
 //@at "let tile_data_start ="
 		let ghost meta = metadata@;
-		proof { lemma_write_at_self(Seq::<u8>::empty(), 16384, meta); }
+		proof { lemma_write_at_self(old(writer).bytes@, 16384, meta); }
 //@after "let tile_data_start = writer.get_position()?;"
 		let ghost src = *reader;
+		let ghost mut cs: Ghost<Seq<TileCoord3>> = Ghost(Seq::empty());
+		proof { assert(writer.pos == writer.bytes@.len()); assert(src == *old(reader)); }
 		proof { assert(writer.bytes@.subrange(16384, 16384 + meta.len() as int) == meta); }
 //@loop 1 iter=it
-			invariant *reader == src, forall|i: int| 0 <= i < blocks@.len() ==> (#[trigger] blocks@[i]).wf(), forall|c: TileCoord3| (#[trigger] src.tile_at(c)) is Some ==> c.valid(),
+			invariant *reader == src, forall|i: int| 0 <= i < blocks@.len() ==> (#[trigger] blocks@[i]).wf(),
+				writer.pos == writer.bytes@.len(), all_good(src, writer.bytes@, tile_data_start as int, entries.entries@, cs@, writer.pos as int), forall|c: TileCoord3| (#[trigger] src.tile_at(c)) is Some ==> c.valid(),
 				tile_data_start == 16384 + meta.len(), writer.pos >= tile_data_start, writer.bytes@.len() >= 16384 + meta.len(),
 				writer.bytes@.subrange(16384, 16384 + meta.len() as int) == meta,
 				header.metadata.offset == 16384 && header.metadata.length == meta.len(),
 //@after "let mut stream = reader.get_bbox_tile_stream(bbox.clone());"
 			proof { axiom_stream_rest(&stream);
 				assert forall|i: int| 0 <= i < stream.rest().len() implies (#[trigger] stream.rest()[i]).0.valid() by {
-					let x = stream.rest()[i]; assert(stream.rest().contains(x)); assert(stream.items().contains((x.0, x.1))); assert(src.tile_at(x.0) == Some(x.1)); } }
+					let x = stream.rest()[i]; assert(stream.rest().contains(x)); assert(stream.items().contains((x.0, x.1))); assert(src.tile_at(x.0) == Some(x.1)); }
+				assert forall|i: int| 0 <= i < stream.rest().len() implies src.tile_at((#[trigger] stream.rest()[i]).0) == Some(stream.rest()[i].1) by {
+					let x = stream.rest()[i]; assert(stream.rest().contains(x)); assert(stream.items().contains((x.0, x.1))); } }
 //@loop 2
-				invariant *reader == src, tile_data_start == 16384 + meta.len(), writer.pos >= tile_data_start, writer.bytes@.len() >= 16384 + meta.len(),
+				invariant *reader == src, writer.pos == writer.bytes@.len(), all_good(src, writer.bytes@, tile_data_start as int, entries.entries@, cs@, writer.pos as int),
+					forall|i: int| 0 <= i < stream.rest().len() ==> src.tile_at((#[trigger] stream.rest()[i]).0) == Some(stream.rest()[i].1), tile_data_start == 16384 + meta.len(), writer.pos >= tile_data_start, writer.bytes@.len() >= 16384 + meta.len(),
 					writer.bytes@.subrange(16384, 16384 + meta.len() as int) == meta,
 					header.metadata.offset == 16384 && header.metadata.length == meta.len(),
 					forall|i: int| 0 <= i < stream.rest().len() ==> (#[trigger] stream.rest()[i]).0.valid(),
@@ -199,23 +245,43 @@ impl PMTilesWriter {
 //@loopstart 2
 				let ghost b0 = writer.bytes@; let ghost p0 = writer.pos as int; let ghost rest0 = stream.rest();
 //@after "let (coord, blob) = vnext.unwrap();"
-				proof { assert(rest0[0].0.valid()); assert forall|i: int| 0 <= i < stream.rest().len() implies (#[trigger] stream.rest()[i]).0.valid() by { assert(stream.rest()[i] == rest0[i + 1]); } }
+				proof { assert(rest0[0].0.valid()); assert(src.tile_at(rest0[0].0) == Some(rest0[0].1));
+					assert forall|i: int| 0 <= i < stream.rest().len() implies (#[trigger] stream.rest()[i]).0.valid() && src.tile_at(stream.rest()[i].0) == Some(stream.rest()[i].1) by { assert(stream.rest()[i] == rest0[i + 1]); } }
+				let ghost es0 = entries.entries@;
 //@after "let range = writer.append(&blob).unwrap();"
-				proof { lemma_write_at_other(b0, p0, blob@, 16384, 16384 + meta.len() as int); }
+				proof { lemma_write_at_other(b0, p0, blob@, 16384, 16384 + meta.len() as int); lemma_all_good_write(src, b0, tile_data_start as int, es0, cs@, p0, p0, blob@); lemma_write_at_self(b0, p0, blob@); }
+//@after "entries.push(EntryV3::new(id, range.get_shifted_backward(tile_data_start), 1));"
+				proof { cs = Ghost(cs@.push(coord));
+					let e = entries.entries@[es0.len() as int];
+					assert(good(src, writer.bytes@, tile_data_start as int, e, coord));
+					assert forall|i: int| 0 <= i < entries.entries@.len() implies #[trigger] good(src, writer.bytes@, tile_data_start as int, entries.entries@[i], cs@[i]) && tile_data_start + entries.entries@[i].range.offset + entries.entries@[i].range.length <= writer.pos by {
+						if i < es0.len() { assert(good(src, writer.bytes@, tile_data_start as int, es0[i], cs@[i])); } } }
 //@at "writer.set_position(HeaderV3::len())?;"
-		let ghost b1 = writer.bytes@;
+		proof { assert(src == *old(reader)); }
+		let ghost b1 = writer.bytes@; let ghost e0 = entries.entries@; let ghost cs0 = cs@; let ghost tds = tile_data_start as int; let ghost tde = tile_data_end as int;
+		proof { assert(all_good(src, b1, tds, e0, cs0, tde)); }
 //@after "header.root_dir = writer.append(&directory.root_bytes)?;"
 		let ghost root = directory.root_bytes@; let ghost b2 = writer.bytes@;
-		proof { lemma_write_at_other(b1, 127, root, 16384, 16384 + meta.len() as int); lemma_write_at_self(b1, 127, root); }
+		proof { lemma_write_at_other(b1, 127, root, 16384, 16384 + meta.len() as int); lemma_write_at_self(b1, 127, root); lemma_all_good_write(src, b1, tds, e0, cs0, tde, 127, root); }
 //@after "header.leaf_dirs = writer.append(&directory.leaves_bytes)?;"
 		let ghost leaves = directory.leaves_bytes@; let ghost b3 = writer.bytes@;
 		proof { lemma_write_at_other(b2, tile_data_end as int, leaves, 16384, 16384 + meta.len() as int); lemma_write_at_other(b2, tile_data_end as int, leaves, 127, 127 + root.len() as int);
-			lemma_write_at_self(b2, tile_data_end as int, leaves); }
+			lemma_write_at_self(b2, tile_data_end as int, leaves); lemma_all_good_write(src, b2, tds, e0, cs0, tde, tde, leaves); }
 //@at "Ok(())"
 		proof { let hw = header_wire(header);
 			lemma_write_at_other(b3, 0, hw, 16384, 16384 + meta.len() as int); lemma_write_at_other(b3, 0, hw, 127, 127 + root.len() as int);
 			lemma_write_at_other(b3, 0, hw, tile_data_end as int, tile_data_end as int + leaves.len() as int); lemma_write_at_self(b3, 0, hw);
-			assert(write_at(root, 0, meta).len() >= 0); assert(write_at(leaves, 0, meta).len() >= 0); }
+			assert(write_at(root, 0, meta).len() >= 0); assert(write_at(leaves, 0, meta).len() >= 0);
+			lemma_all_good_write(src, b3, tds, e0, cs0, tde, 0, hw);
+			let e1 = entries.entries@; let f = writer.bytes@;
+			assert(root == dir_root(e1, TileCompression::Gzip)); assert(leaves == dir_leaves(e1, TileCompression::Gzip));
+			assert(header.tile_data.offset as int == tds);
+			let hoff = header.tile_data.offset as int; let src0 = *old(reader);
+			assert(src0 == src && hoff == tds);
+			lemma_all_addressed(src, f, tds, e0, cs0, tde, e1);
+			assert(all_addressed(src0, f, hoff, e1));
+			assert(exists|ents: Seq<EntryV3>| #![trigger dir_root(ents, TileCompression::Gzip)] root == dir_root(ents, TileCompression::Gzip) && leaves == dir_leaves(ents, TileCompression::Gzip)
+				&& all_addressed(src0, f, hoff, ents)); }
 //@end
 }
 } // verus!
